@@ -144,7 +144,10 @@ def mutation_history(rec, rng, fac, kn, steps=12):
     for _ in range(steps):
         op = rng.choice(["rotate", "rotate", "rotate", "move", "wrap", "swap", "swap", "detach"])
         a = rng.choice(trees)
-        nodes = S.nodes_preorder(a)
+        try:
+            nodes = S.nodes_preorder(a)
+        except RecursionError:
+            break
         n = rng.choice(nodes)
         try:
             if op == "rotate":
@@ -173,16 +176,19 @@ def mutation_history(rec, rng, fac, kn, steps=12):
         except Exception:
             pass
         rec.arm("mutation:" + op)
-        roots = []
-        for t in trees:
-            for x in S.nodes_preorder(t):
-                r = S.root_of(x)
-                if not any(r is y for y in roots):
-                    roots.append(r)
-        trees = roots[:4] if roots else trees
-        for t in trees:
-            if not S.audit(t, expr=False):
-                query_all(t, rng, kn == "expr")
+        try:
+            roots = []
+            for t in trees:
+                for x in S.nodes_preorder(t):
+                    r = S.root_of(x)
+                    if not any(r is y for y in roots):
+                        roots.append(r)
+            trees = roots[:4] if roots else trees
+            for t in trees:
+                if not S.audit(t, expr=False):
+                    query_all(t, rng, kn == "expr")
+        except RecursionError:
+            break  # links corrupted by an earlier step (cyclic): already reported by a monitor
     rec.arm("mutation-histories")
     rec.nontrivial(("mutation-history", kn, steps, rng.random()))
 
